@@ -43,6 +43,19 @@ def write_replay(prop, name, payload):
     return os.path.relpath(path, VERIF)
 
 
+def default_relevant(rec, case):
+    """Unless a property says otherwise (C09 and C10 are about source locations too, C02 / C04 / C05 have their own rule),
+    a disagreement that lies only in the *source locations* attached to an exception — same kind of outcome, same
+    results / exception contents, same output, input consumption, files and events — is a broken correspondence, not an
+    input on which the property fails."""
+    d = rec.get('detail', {})
+    a, m = dict(d.get('impl', {})), dict(d.get('model', {}))
+    if not a or not m:
+        return True
+    a.pop('spans', None); m.pop('spans', None)
+    return a != m
+
+
 def main():
     ap = argparse.ArgumentParser()
     ap.add_argument('prop')
@@ -150,7 +163,7 @@ def main():
                                 'observed': r.get('detail')}, True))
         elif r['status'] == 'disagree':
             # model ≠ implementation: a violation only if the property's own observables differ
-            relevant = spec.get('relevant', lambda rec, case: True)(r, cases[r['idx']])
+            relevant = spec.get('relevant', default_relevant)(r, cases[r['idx']])
             violations.append(({'property': prop, 'kind': 'disagree',
                                 'what': 'implementation differs from the executable model (the specification semantics)'
                                         if relevant else
